@@ -200,7 +200,7 @@ Fixpoint sorted_from (lo : Z) (l : list (option agg)) : Prop :=
   | Some x :: l' => lo < a_ts x /\ a_valid x = true /\ sorted_from (a_ts x) l'
   end.
 Definition bounded (hi : Z) (l : list (option agg)) : Prop := forall x, In (Some x) l -> a_ts x <= hi.
-Definition lv_step (x : option agg) (o : option agg) : option agg :=
+Definition lvf_step (x : option agg) (o : option agg) : option agg :=
   match o with Some y => Some (lv_later (match x with Some z => z | None => agg0 end) y) | None => x end.
 
 Lemma top_app : forall l1 l2, top (l1 ++ l2) = match top l2 with Some x => Some x | None => top l1 end.
@@ -237,11 +237,11 @@ Qed.
 (* folding Merge over an increasing sequence yields its most recent entry *)
 Lemma lv_fold_sorted : forall l acc,
   sorted_from (a_ts (match acc with Some z => z | None => agg0 end)) l ->
-  fold_left lv_step l acc = match top l with Some x => Some x | None => acc end.
+  fold_left lvf_step l acc = match top l with Some x => Some x | None => acc end.
 Proof.
   induction l as [|[y|] l IH]; intros acc H; cbn [fold_left top sorted_from] in *; [reflexivity| |].
-  2:{ cbn [lv_step]. rewrite IH by exact H. now destruct (top l). }
-  destruct H as (H1 & H2 & H3). unfold lv_step at 2.
+  2:{ cbn [lvf_step]. rewrite IH by exact H. now destruct (top l). }
+  destruct H as (H1 & H2 & H3). unfold lvf_step at 2.
   assert (Hl : lv_later (match acc with Some z => z | None => agg0 end) y = y).
   { unfold lv_later. destruct (a_ts (match acc with Some z => z | None => agg0 end) >? a_ts y) eqn:E; [lia|reflexivity]. }
   rewrite Hl. rewrite IH by exact H3. now destruct (top l).
@@ -251,11 +251,11 @@ Section Lasts.
   Variable k : Z.
   Hypothesis Hk : is_last k = true.
 
-  Lemma mmerge_last : forall acc m a, mmerge k acc m a = lv_step (acc a) (m a).
-  Proof. intros acc m a. unfold mmerge, lv_step, get_def, merge. rewrite Hk. reflexivity. Qed.
+  Lemma mmerge_last : forall acc m a, mmerge k acc m a = lvf_step (acc a) (m a).
+  Proof. intros acc m a. unfold mmerge, lvf_step, get_def, merge. rewrite Hk. reflexivity. Qed.
 
   Lemma fold_mmerge_last : forall U acc a,
-    fold_left (mmerge k) U acc a = fold_left lv_step (map (fun m => m a) U) (acc a).
+    fold_left (mmerge k) U acc a = fold_left lvf_step (map (fun m => m a) U) (acc a).
   Proof.
     induction U as [|m U IH]; intros acc a; cbn [fold_left map]; [reflexivity|]. rewrite IH. now rewrite mmerge_last.
   Qed.
